@@ -1828,9 +1828,10 @@ def merge_nested_comprehensions(source: str) -> str:
 def replace_functions_with_literals(source: str) -> str:
     root = core.parse(source)
 
-    yield from processing.find_replace(source, "list()", "[]")
-    yield from processing.find_replace(source, "tuple()", "()")
-    yield from processing.find_replace(source, "dict()", "{}")
+    # Only when the names still mean the builtins: the file may define a list() of its own.
+    for name, literal in (("list", "[]"), ("tuple", "()"), ("dict", "{}")):
+        if not _is_name_assigned(name, root):
+            yield from processing.find_replace(source, f"{name}()", literal, root=root)
 
     template = core.compile_template(
         "{{func}}({{arg}})",
@@ -1838,6 +1839,9 @@ def replace_functions_with_literals(source: str) -> str:
         arg=(ast.List, ast.ListComp, ast.Tuple, ast.Set, ast.SetComp, ast.GeneratorExp),
     )
     for node, arg, func in core.walk_wildcard(root, template):
+        if _is_name_assigned(func.id, root):
+            continue
+
         if func.id == "list":
             if isinstance(arg, (ast.List, ast.ListComp)):
                 yield node, arg
@@ -2268,17 +2272,12 @@ def replace_redundant_starred(source: str) -> str:
     root = core.parse(source)
     value_template = core.Wildcard("value", (ast.ListComp, ast.GeneratorExp, ast.SetComp))
 
-    template = ast.List(elts=[ast.Starred(value=value_template)])
-    for node, value in core.walk_wildcard(root, template):
-        yield node, ast.Call(func=ast.Name(id="list"), args=[value], keywords=[])
-
-    template = ast.Tuple(elts=[ast.Starred(value=value_template)])
-    for node, value in core.walk_wildcard(root, template):
-        yield node, ast.Call(func=ast.Name(id="tuple"), args=[value], keywords=[])
-
-    template = ast.Set(elts=[ast.Starred(value=value_template)])
-    for node, value in core.walk_wildcard(root, template):
-        yield node, ast.Call(func=ast.Name(id="set"), args=[value], keywords=[])
+    for name, display_type in (("list", ast.List), ("tuple", ast.Tuple), ("set", ast.Set)):
+        if _is_name_assigned(name, root):
+            continue  # name() would not be the builtin
+        template = display_type(elts=[ast.Starred(value=value_template)])
+        for node, value in core.walk_wildcard(root, template):
+            yield node, ast.Call(func=ast.Name(id=name), args=[value], keywords=[])
 
 
 @processing.fix
@@ -2650,6 +2649,10 @@ def replace_with_filter(source: str) -> str:
     for {{target}} in filter(None, {{iter}}):
         {{body}}
     """
+    root = core.parse(source)
+    if _is_name_assigned("filter", root):
+        return  # filter() would not be the builtin
+
     template = core.compile_template((find_positive, find_negative), expand="body")
     iterator1 = processing.find_replace(source, template, replace, yield_match=True)
 
@@ -2926,6 +2929,9 @@ def _replace_lambda_with_literal(source: str) -> str:
 
             if _is_called_by_keyword(template_match[0], root):
                 continue
+
+            if replace in {"list", "dict", "tuple", "set"} and _is_name_assigned(replace, root):
+                continue  # not the builtin
 
             # `lambda: f()()` evaluates f() at every call, `f()` once and at once
             func = getattr(template_match, "func", None)
@@ -3314,6 +3320,8 @@ def remove_redundant_comprehension_casts(source: str) -> str:
     )
 
     for node, comp, func in core.walk_wildcard(root, template):
+        if _is_name_assigned(func, root):
+            continue
         if func == "set":
             yield node, ast.SetComp(comp.elt, comp.generators)
         if func == "list" and not isinstance(comp, ast.SetComp):
@@ -3329,6 +3337,8 @@ def remove_redundant_comprehension_casts(source: str) -> str:
 
     safe_callables = parsing.safe_callable_names(root)
     for node, comp, func in core.walk_wildcard(root, template):
+        if _is_name_assigned(func, root):
+            continue
         if func == "dict":
             yield node, comp
         # list() and iter() of a dict follow the insertion order, which a set does not have
@@ -3354,6 +3364,8 @@ def remove_redundant_chain_casts(source: str) -> str:
     for node, args, func_outer in core.walk_wildcard(root, template):
         if any(isinstance(arg, ast.Starred) for arg in args):
             continue  # chain(*a) chains the elements of a; "{**a}" would even be a dict
+        if _is_name_assigned(func_outer, root):
+            continue
         if func_outer == "iter" and len(args) >= 1:
             yield node, node.args[0]
         if func_outer == "iter" and not args:
@@ -4311,7 +4323,7 @@ def _reads_underscore(root: ast.AST) -> bool:
 @processing.fix
 def redundant_enumerate(source: str) -> str:
     root = core.parse(source)
-    if _reads_underscore(root):
+    if _reads_underscore(root) or _is_name_assigned("enumerate", root):
         return
     iter_template = ast.Call(
         func=ast.Name(id="enumerate"), args=[core.Wildcard("iter", object)], keywords=[]
